@@ -46,6 +46,7 @@ FUNCTIONS = {
     "collectorRun": ("src/sedpack/io/itertools/lazy_pool.py", "Collector.run"),
     # the reading side: for these, a store whose target is rooted at `self` is emitted as `selfset:<attr>` / `selfaug:<attr>`
     "shardInfoIterator": ("src/sedpack/io/dataset_base.py", "DatasetBase.shard_info_iterator"),
+    "shardInfoWalk": ("src/sedpack/io/dataset_base.py", "DatasetBase._shard_info_iterator"),
     "shardPathsDataset": ("src/sedpack/io/dataset_iteration.py", "DatasetIteration.shard_paths_dataset"),
     "asNumpyCommon": ("src/sedpack/io/dataset_iteration.py", "DatasetIteration.as_numpy_common"),
     "asNumpyIterator": ("src/sedpack/io/dataset_iteration.py", "DatasetIteration.as_numpy_iterator"),
@@ -54,7 +55,7 @@ FUNCTIONS = {
     "asNumpyIteratorRust": ("src/sedpack/io/dataset_iteration.py", "DatasetIteration.as_numpy_iterator_rust"),
     "asTfdataset": ("src/sedpack/io/dataset_iteration.py", "DatasetIteration.as_tfdataset"),
 }
-READERS = {"shardInfoIterator", "shardPathsDataset", "asNumpyCommon", "asNumpyIterator", "asNumpyIteratorConcurrent", "asNumpyIteratorAsync",
+READERS = {"shardInfoIterator", "shardInfoWalk", "shardPathsDataset", "asNumpyCommon", "asNumpyIterator", "asNumpyIteratorConcurrent", "asNumpyIteratorAsync",
            "asNumpyIteratorRust", "asTfdataset"}
 MARKED = {"poolExit", "poolReset", "shuffleBuffer", "shuffleBufferAsync", "roundRobin", "roundRobinAsync", "getHashFunction", "hashChecksums",
           "datasetBaseInit", "fillerCtxInit", "getNewShard", "imapUnordered", "collectorRun"} | READERS
